@@ -55,6 +55,14 @@ PYOP = dict(c01.PYOP)
 PYOP["/"] = operator.truediv
 CMPS = {"<": operator.lt, "<=": operator.le, ">": operator.gt,
         ">=": operator.ge, "==": operator.eq, "!=": operator.ne}
+# Python-side values (scaled by 100000) that are whole numbers beyond the
+# 53 bit mantissa of a float: assigned as Python ints
+BIGPY = [12345678901234 * 100000, (2**53 + 1) // 100000 * 100000 + 100000,
+         -9876543210987 * 100000, 90071992547 * 100000]
+# constants whose scaled value lies around the 32 bit immediate limits
+BIGDEC = [2**31 - 1, 2**31, 2**31 + 7, 3000050000, 2**32 - 1, 2**32,
+          2**32 + 3]
+BIGINT = [21474, 21475, 25000, 30000, 42949, 42950]
 NONBINARY = [29, 7, 110000, 1, 3, 100001, 99999, 123457, 314159, 271828,
              57, 1999999, 33333]
 
@@ -82,12 +90,14 @@ def case_strategy(draw):
     def const():
         if draw(st.booleans()):
             n = draw(st.sampled_from(NONBINARY)
-                     | st.integers(1, 10**7) | st.integers(-10**6, 10**9))
+                     | st.integers(1, 10**7) | st.integers(-10**6, 10**9)
+                     | st.sampled_from(BIGDEC))
             return ["dec", n]
         return ["const", draw(st.integers(-50, 50)
                               | st.sampled_from([2, 3, 7, 10, 100, 1000,
                                                  100000, -1, -3])
-                              | st.integers(-10**6, 10**6))]
+                              | st.integers(-10**6, 10**6)
+                              | st.sampled_from(BIGINT))]
 
     def tree(d, root=False):
         k = draw(st.integers(0, 6))
@@ -156,8 +166,10 @@ def case_strategy(draw):
             vec[n] = v
         vectors.append(vec)
     case["vectors"] = vectors
-    case["py"] = [draw(st.sampled_from(NONBINARY) | st.integers(-10**9, 10**9))
-                  for _ in range(2)]
+    case["py"] = [draw(st.sampled_from(NONBINARY) | st.integers(-10**9, 10**9)
+                       | st.sampled_from(BIGPY)),
+                  draw(st.sampled_from(NONBINARY)
+                       | st.integers(-10**9, 10**9))]
     return case
 
 
@@ -177,8 +189,10 @@ def enumerate_cases(tier):
          "v0"),
     ]
     consts = [["const", 3], ["const", -9], ["const", 1000], ["dec", 29000],
-              ["dec", -250000], ["dec", 7]]
-    values = [0, 100000, 150000, 234779, -161257, 29000, 7, 50 * BASE + 1]
+              ["dec", -250000], ["dec", 7], ["const", 30000],
+              ["dec", 3000050000]]
+    values = [0, 100000, 150000, 234779, -161257, 29000, 7, 50 * BASE + 1,
+              4000000000, 7 * 10**9 + 1]
     for decls, regs, leaf, name in leaves:
         for dst in (leaf, ["var", "d"]):
             for dfmt in (("x",) if dst is leaf else ("x", "q", "i")):
@@ -190,9 +204,10 @@ def enumerate_cases(tier):
                         for swap in (False, True):
                             expr = ["bin", op, c, leaf] if swap \
                                 else ["bin", op, leaf, c]
+                            big = c in consts[6:]
                             vectors = [dict({name: v}, **(
                                 {"d": 0} if dst is not leaf else {}))
-                                for v in values[:6]]
+                                for v in (values[4:] if big else values[:6])]
                             yield {"decls": ds, "regs": regs,
                                    "mode": "assign", "dst": dst,
                                    "expr": expr, "vectors": vectors,
@@ -458,7 +473,8 @@ def run_case(case):
         if status != "ok":
             # not loaded: the descriptors still generate code
             return dict(ok=True, nontrivial=False, classes=classes)
-        e.py0 = n0 / BASE
+        # whole numbers are assigned as Python ints (exact at any size)
+        e.py0 = n0 // BASE if n0 % BASE == 0 else n0 / BASE
         pos0 = e.__dict__["py0"]
         mp = prog.map_bytes()
         raw0 = int.from_bytes(mp[pos0:pos0 + 8], "little", signed=True)
@@ -507,6 +523,10 @@ def run_case(case):
                             exp |= drop(v, True) if fx else {v}
                         else:
                             if fx:
+                                # the raw (scaled) value is an intermediate
+                                # of the conversion: it has to fit W too
+                                need(Fraction(v) * BASE, W,
+                                     "scaled value converted to an integer")
                                 facts.add("fixed-to-int")
                                 if v < 0:
                                     facts.add("negative-division")
